@@ -683,6 +683,10 @@ func indexEntryMapperFor(index, primaryIndex *Index) store.EntryMapper {
 	valueExtractor := func(value []byte, valuesByColID map[uint32]TypedValue) error {
 		voff := 0
 
+		if len(value)-voff < EncLenLen {
+			return ErrCorruptedData
+		}
+
 		cols := int(binary.BigEndian.Uint32(value[voff:]))
 		voff += EncLenLen
 
@@ -691,11 +695,19 @@ func indexEntryMapperFor(index, primaryIndex *Index) store.EntryMapper {
 				return fmt.Errorf("key is lower than required")
 			}
 
+			if len(value)-voff < EncIDLen {
+				return ErrCorruptedData
+			}
+
 			colID := binary.BigEndian.Uint32(value[voff:])
 			voff += EncIDLen
 
 			col, err := index.table.GetColumnByID(colID)
 			if errors.Is(err, ErrColumnDoesNotExist) {
+				if len(value)-voff < EncLenLen {
+					return ErrCorruptedData
+				}
+
 				vlen := int(binary.BigEndian.Uint32(value[voff:]))
 				voff += EncLenLen + vlen
 				continue
